@@ -647,6 +647,12 @@ def _apply_event(phi, xx, pop_ids, event, interval, sample_sizes, demes_present)
             phi= _split_phi(phi, xx, pop_ids, parent, new_pop_ids)
             # When dadi splits a population, one of the new children is always the last in the phi matrix
             pop_ids = new_pop_ids
+            # A split into more than two children: the further children are
+            # copies of the first one.
+            for child in children[2:]:
+                new_pop_ids = pop_ids + [child]
+                phi = _split_phi(phi, xx, pop_ids, children[0], new_pop_ids)
+                pop_ids = new_pop_ids
     elif e == "branch":
         # branch is a split, but keep the pop_id of parent
         parent = event[1]
